@@ -3,7 +3,7 @@ from plib import *
 from props.builder import PProg
 from props.common import ProgRunner
 
-EXTRA_AUDITS = ["ComposerTie"]
+EXTRA_AUDITS = ["ComposerTie", "WidgetTie"]
 LEAN_TARGETS = ["Plonk.Props.C12", "Plonk.Props.ComposerTie", "Plonk.Props.WidgetTie"]
 ASSUMPTIONS = ["JubJub group structure (closure/associativity/order 8*r_J of the twisted Edwards law) is an explicit hypothesis "
                "structure of the scalar-multiplication theorems, not proved; its executable consequences are checked against "
